@@ -382,9 +382,21 @@ func (w *W) c06(groups [][]*driver.Bound) {
 				continue
 			}
 			vals := refcodec.RecValues(b.Case.Rec, 0, 0)
+			huge := map[*refcodec.RecValue]bool{}
 			if refcodec.IsBig(b.Case.Rec) {
 				// payloads far above the allocation budget, truncated near the header only
-				vals = append(vals, refcodec.HugeValues(b.Case.Rec)...)
+				for _, hv := range refcodec.HugeValues(b.Case.Rec) {
+					vals = append(vals, hv)
+					huge[hv] = true
+				}
+			}
+			if sh := b.Case.Shape; b.Opt == 0 && sh != nil && sh.Kind == schema.ArrayT && sh.Elem.Kind != schema.ArrayT && sh.Elem.Kind != schema.MapT &&
+				!zeroSizeElems(sh) && (b.Case.Ctx == "S" || b.Case.Ctx == "M" || b.Case.Ctx == "IMP") && (b.Case.Rec.Kind == schema.Struct || b.Case.Rec.Kind == schema.Message) {
+				// an array of 400 000 elements (far above the allocation budget once a decoder trusts the count), cut near the header
+				if hv := refcodec.HugeArrayValue(b.Case.Rec, "f", 400000); hv != nil {
+					vals = append(vals, hv)
+					huge[hv] = true
+				}
 			}
 			for vi, rv := range vals {
 				if w.slow(b) {
@@ -401,8 +413,8 @@ func (w *W) c06(groups [][]*driver.Bound) {
 				}
 				roles := map[string]bool{}
 				for k := 0; k < len(enc); k++ {
-					if len(enc) > refcodec.HugeSize && k >= 96 && k < len(enc)-8 {
-						// the huge values: every cut point in the first 96 bytes (all headers and length prefixes) and the last 8
+					if huge[rv] && k >= 96 {
+						// the huge values: every cut point in the first 96 bytes (all headers, length prefixes and counts)
 						w.res.Extra["cut_points_skipped_in_huge_encodings"]++
 						continue
 					}
